@@ -1,0 +1,47 @@
+//go:build verif
+
+// Contracts for C01: the server asks the backend for exactly the byte range the request names and reports
+// exactly what the backend did (operations.go, nfs_proc_readwrite.go). Checked by /verif/govc (comment-only file).
+// The file content itself lives in the backend (A-ABSFS: ReadAt/WriteAt/Truncate behave like a byte array with
+// zero-filled holes); what is proved here is the server's half of "data read back equals data written":
+//   READ   the buffer handed to ReadAt is min(count, TransferSize, size - offset) bytes long, at the request's
+//          offset, on the handle's path; the bytes returned are the first n bytes of that buffer, n the backend's
+//          count; the reply's count and opaque length are the length of that data, its bytes are those bytes,
+//          and eof is 1 exactly when offset + count reaches the size GETATTR reports after the read;
+//   WRITE  the slice handed to WriteAt is the first min(len, TransferSize) bytes of the payload slice, at the
+//          request's offset, on the handle's path; the count returned (and put in the reply) is the backend's;
+//          the payload is exactly count bytes read from the request;
+//   SETATTR(size)  the truncation is issued with the requested size before any other modification.
+package absnfs
+
+//@ specdef min3(a mathint, b mathint, c mathint) mathint = min(min(a, b), c)
+
+//@ also AbsfsNFS.ReadWithContext
+//@ callassert absfs.FS.OpenFile : [opens-handle-path-read-only] {C01} arg1 == node.path && arg2 == 0
+//@ callassert absfs.File.ReadAt : [range-asked] {C01} curTuning(s).TransferSize > 0 ==> remaining > 0 && len(arg1) == min3(old(count), curTuning(s).TransferSize, remaining) && arg2 == offset && fresh(arg1)
+// (the range asked for ends at or before the file size, which is an int64: offset + length cannot overflow)
+//@ callassert absfs.File.ReadAt : [read-stays-inside-int64] {C01} arg2 >= 0 && arg2 == offset && arg2 + len(arg1) <= 9223372036854775807
+//@ ensures [returns-what-the-backend-read] {C01} isnil(result1) && len(result0) > 0 ==> arr(result0) == lastreadarr && off(result0) == 0 && len(result0) == lastreadn
+//@ ensures [within-the-file] {C01} isnil(result1) ==> old(offset) >= 0 && old(offset) + len(result0) <= 9223372036854775807
+
+//@ also AbsfsNFS.Read
+//@ ensures [within-the-file] {C01} isnil(result1) ==> old(offset) >= 0 && old(offset) + len(result0) <= 9223372036854775807
+//@ also AbsfsNFS.Write
+//@ ensures [reports-the-backend-count] {C01} isnil(result1) ==> result0 == lastwriten && 0 <= result0 && result0 <= len(old(data))
+
+//@ also NFSProcedureHandler.handleRead
+//@ callassert AbsfsNFS.Read : [asks-for-the-requested-range] {C01} arg1 == node && arg2 == int64(offset) && arg3 == count
+//@ callassert bytes.Buffer.Bytes : [read-result] {C01} be32(wdata[addr(buf)], 92) == len(data) && be32(wdata[addr(buf)], 100) == len(data) && be32(wdata[addr(buf)], 96) == ite(int64(offset) + len(data) >= attrs.Size, 1, 0) && int64(offset) >= 0 && forall(k, 0, len(data), wdata[addr(buf)][104 + k] == data[k])
+
+//@ also AbsfsNFS.WriteWithContext
+//@ callassert absfs.FS.OpenFile : [opens-handle-path] {C01} arg1 == node.path
+//@ callassert absfs.File.WriteAt : [writes-payload-prefix-at-offset] {C01} arr(arg1) == arr(old(data)) && off(arg1) == off(old(data)) && len(arg1) == min(len(old(data)), max(curTuning(s).TransferSize, 0)) && arg2 == offset && offset == old(offset)
+//@ ensures [reports-the-backend-count] {C01} isnil(result1) ==> result0 == lastwriten && 0 <= result0 && result0 <= len(old(data))
+
+//@ also NFSProcedureHandler.handleWrite
+//@ callassert AbsfsNFS.Write : [writes-the-payload-at-the-requested-offset] {C01} arg1 == node && arg2 == int64(offset) && arg3 == data && len(data) == count
+// (second buf.Bytes() of the handler: the WRITE3resok)
+//@ callassert bytes.Buffer.Bytes#2 : [write-result] {C01} be32(wdata[addr(buf)], 120) == n && 0 <= n && n <= count
+
+//@ also NFSProcedureHandler.handleSetattr
+//@ callassert NFSNode.Truncate : [size-first] {C01} mutlog == old(mutlog) && arg1 == sattr.Size
